@@ -509,6 +509,28 @@ def r14_text_reaches_the_lexer_as_given(chk):
     r6_entry_point(chk, rule='C11.R14')
 
 
+
+def r15_lexer_regexes_terminate_quickly(chk):
+    """"never fails to terminate": Python's regex matcher backtracks; a token rule with an unbounded repeat nested in an
+    unbounded repeat (everything else in the body optional) needs time exponential in the length of a run that finally
+    does not match - e.g. a long hex literal whose closing quote is missing"""
+    lm = lexer_model(chk)
+    mod = chk.model.mod(LEXER)
+    chk.doc('C11.R15', 'no lexer rule regex (any state, any dialect) contains an unbounded repeat whose body contains '
+                       'another unbounded repeat while the rest of that body can match the empty string ((X+ Y*)*, (X*)*, '
+                       '(X+)+): matching stays polynomial in the input length')
+    n = 0
+    for s in sorted(lm.states):
+        for r in lm.rules[s]:
+            n += 1
+            bad = rx.exponential_repeats(r.parsed(lm.flags))
+            chk.ob('C11.R15', 'state %s/rule %s' % (s, r.name), not bad,
+                   where(mod, r.fn) if r.fn is not None else LEXER,
+                   'regex %r: %s - the lexer can take exponential time on a long run that fails to match' % (
+                       r.pattern, '; '.join(bad)))
+    chk.floor('C11.R15', 20, 'lexer rules')
+
+
 RULES = [r1_located_package_errors, r2_state_totality, r3_progress_and_token_types, r4_line_accounting, r5_p_error,
          r6_parse_result, r7_numeric_conversion, r8_actions_cannot_raise_typeerror, r9_number_classifier,
-         r10_token_rules_return_the_token, r10_rule_functions_cannot_raise_foreign, r11_class_tables_not_mutated, r12_format_arity, r14_text_reaches_the_lexer_as_given]
+         r10_token_rules_return_the_token, r10_rule_functions_cannot_raise_foreign, r11_class_tables_not_mutated, r12_format_arity, r14_text_reaches_the_lexer_as_given, r15_lexer_regexes_terminate_quickly]
